@@ -130,6 +130,7 @@ def monitors (model : String) (steps : List (String × Obs)) (cancelled : List N
   | none => none
   | some (_, final) =>
     if model = "c03" then
+      if foreign ≠ "none" then some s!"SPEC key=wrong-completion {foreign} (a call was completed with something else than its answer or a connection-level error)" else
       match handed.find? (fun c => countOf final c > 1) with
       | some c => some s!"SPEC key=double-completion call={c}"
       | none =>
@@ -181,6 +182,20 @@ def handle (model : String) : List String → String
     else if results = "results=0" then "SPEC key=stranded-slow-close (call registered during a slow connection Close was never completed)"
     else if results ≠ "results=1" then s!"SPEC key=double-completion-slow-close {results} {cls}"
     else s!"OK tags=script,slow-close,{cls}"
+  | ["script", "blocked-write-close", parked, returned, connClosed, results] =>
+    -- C03: the failure transition does not wait for a request stuck inside conn.Write
+    if parked ≠ "parked=true" then s!"DIFF harness: no Write was parked ({parked})"
+    else if connClosed ≠ "connclosed=true" then "SPEC key=connection-not-closed-while-write-blocked (Close with a request stuck in Write did not close the connection: on a real socket that Write never ends)"
+    else if returned ≠ "closereturned=true" then "SPEC key=close-blocked-by-stuck-write"
+    else if results ≠ "results=1" then s!"SPEC key=stranded-blocked-write {results}"
+    else "OK tags=script,blocked-write-close"
+  | ["script", "deadline", answered, ares, armed, moved, late] =>
+    -- C18: a silent server is detected within the read timeout of the last request *sent*
+    let lateMs := ((String.ofList (late.toList.drop 8)).toInt?).getD 0
+    if answered ≠ "answered=true" || ares ≠ "aresults=1" then s!"DIFF harness: deadline scenario {answered} {ares}"
+    else if armed ≠ "armed=true" then "SPEC key=deadline-missing (a request is outstanding and no read deadline is set)"
+    else if lateMs > 25 then s!"SPEC key=deadline-pushed-back-by-a-response {moved} {late} (later than last request + read timeout)"
+    else "OK tags=script,deadline"
   | "script" :: name :: rest => s!"DIFF harness: script {name} {" ".intercalate rest}"
   | "run" :: q :: status :: cancelled :: foreign :: steps =>
     match q.toNat? with
@@ -199,6 +214,8 @@ def handle (model : String) : List String → String
             | some act, some obs => some (a, act, obs)
             | _, _ => none)
         | _ => none)
+      if steps.any (·.startsWith "arm:R:") then
+        "DIFF the reader goroutine armed the read deadline (in the model only senders arm it; the reader clears it)" else
       if parsed.any Option.isNone then "BAD step" else
       let parsed := parsed.filterMap id
       -- 1. property monitors on the implementation's observations
